@@ -65,7 +65,7 @@ _F = 'cellmlmanip/model.py'
 
 GROUP = {'name': 'ModelState',
  'imports': ['Cellml.Tie.ModelStateView'],
- 'header': 'open Model PyM',
+ 'header': 'open Cellml.Tie.PModelState\nopen Model PyM',
  'patterns': _DICTS,
  'stmt_patterns': _STMTS,
  'functions': [
